@@ -296,3 +296,128 @@ def describe():
             "Module::assemble_into (uses the iterator chain global_inst_iter) is not in this unit: see C15",
         ],
     }
+
+
+# ---------------------------------------------------------------------------------------------
+# witness search (C02 / C15): hand-built instructions with operands of every encoding class (strings of every UTF-8
+# length mod 4 incl. multi-byte characters, 64-bit literals, enumerants, masks, ids), assembled with the REAL assembler:
+# the first word's count is the number of words emitted, the words are the prescribed encoding (computed here independently),
+# and parsing them back (real parser) yields the same instruction. Blocks / functions with absent labels and defs.
+# ---------------------------------------------------------------------------------------------
+WITNESS_PROG = r"""// generated by /verif/units/assemble.py
+#![allow(unused)]
+use rspirv::binary::Assemble;
+use rspirv::dr::{self, Operand};
+use rspirv::spirv;
+
+fn enc_str(s: &str) -> Vec<u32> {
+    let mut b = s.as_bytes().to_vec();
+    b.push(0);
+    while b.len() % 4 != 0 { b.push(0); }
+    b.chunks(4).map(|c| u32::from_le_bytes([c[0], c[1], c[2], c[3]])).collect()
+}
+fn enc(op: &Operand) -> Vec<u32> {
+    match op {
+        Operand::LiteralString(s) => enc_str(s),
+        Operand::LiteralBit64(v) => vec![*v as u32, (*v >> 32) as u32],
+        Operand::LiteralBit32(v) => vec![*v],
+        Operand::IdRef(v) | Operand::IdScope(v) | Operand::IdMemorySemantics(v) | Operand::LiteralExtInstInteger(v) => vec![*v],
+        Operand::StorageClass(v) => vec![*v as u32],
+        Operand::Decoration(v) => vec![*v as u32],
+        Operand::ExecutionModel(v) => vec![*v as u32],
+        Operand::MemoryAccess(v) => vec![v.bits()],
+        Operand::FunctionControl(v) => vec![v.bits()],
+        Operand::Capability(v) => vec![*v as u32],
+        Operand::SourceLanguage(v) => vec![*v as u32],
+        _ => vec![0xdead_beef],
+    }
+}
+fn check(tag: &str, i: &dr::Instruction, bad: &mut u32) {
+    let w = i.assemble();
+    let mut want = vec![0u32];
+    if let Some(t) = i.result_type { want.push(t); }
+    if let Some(r) = i.result_id { want.push(r); }
+    for o in &i.operands { want.extend(enc(o)); }
+    want[0] = ((want.len() as u32) << 16) | (i.class.opcode as u32);
+    if w != want { *bad += 1; println!("MISMATCH {} assembled {:x?} prescribed {:x?}", tag, w, want); return; }
+    if (w[0] >> 16) as usize != w.len() { *bad += 1; println!("MISMATCH {} word count {} but {} words emitted", tag, w[0] >> 16, w.len()); }
+    // parse back
+    let mut all = vec![0x07230203u32, 0x00010500, 0, 100, 0];
+    all.extend_from_slice(&w);
+    struct C(Vec<dr::Instruction>);
+    impl rspirv::binary::Consumer for C {
+        fn initialize(&mut self) -> rspirv::binary::ParseAction { rspirv::binary::ParseAction::Continue }
+        fn finalize(&mut self) -> rspirv::binary::ParseAction { rspirv::binary::ParseAction::Continue }
+        fn consume_header(&mut self, _h: dr::ModuleHeader) -> rspirv::binary::ParseAction { rspirv::binary::ParseAction::Continue }
+        fn consume_instruction(&mut self, i: dr::Instruction) -> rspirv::binary::ParseAction { self.0.push(i); rspirv::binary::ParseAction::Continue }
+    }
+    let mut c = C(vec![]);
+    match rspirv::binary::parse_words(&all, &mut c) {
+        Ok(()) => { if c.0.len() != 1 || c.0[0] != *i { *bad += 1; println!("MISMATCH {} parsed back as {:?}", tag, c.0); } }
+        Err(e) => { *bad += 1; println!("MISMATCH {} assembled words are rejected: {:?}", tag, e); }
+    }
+}
+fn main() {
+    let mut bad = 0u32;
+    let strings = ["", "a", "ab", "abc", "abcd", "abcde", "abcdefg", "abcdefgh", "\u{e9}", "\u{e9}\u{e9}", "\u{e9}\u{e9}\u{e9}", "\u{65e5}\u{672c}\u{8a9e}",
+                   "a\u{e9}", "ab\u{e9}\u{e9}c", "\u{1f600}", "x\u{1f600}y\u{1f600}", "\u{e9}\u{e9}\u{e9}\u{e9}\u{e9}\u{e9}\u{e9}"];
+    for s in strings {
+        check(&format!("OpName {:?}", s), &dr::Instruction::new(spirv::Op::Name, None, None, vec![Operand::IdRef(1), Operand::LiteralString(s.to_string())]), &mut bad);
+        check(&format!("OpEntryPoint {:?}", s), &dr::Instruction::new(spirv::Op::EntryPoint, None, None,
+            vec![Operand::ExecutionModel(spirv::ExecutionModel::Fragment), Operand::IdRef(4), Operand::LiteralString(s.to_string()), Operand::IdRef(200), Operand::IdRef(0xffff_fff0)]), &mut bad);
+        check(&format!("OpString {:?}", s), &dr::Instruction::new(spirv::Op::String, None, Some(9), vec![Operand::LiteralString(s.to_string())]), &mut bad);
+        check(&format!("OpSource {:?}", s), &dr::Instruction::new(spirv::Op::Source, None, None,
+            vec![Operand::SourceLanguage(spirv::SourceLanguage::GLSL), Operand::LiteralBit32(450), Operand::IdRef(3), Operand::LiteralString(s.to_string())]), &mut bad);
+    }
+    check("OpStore aligned", &dr::Instruction::new(spirv::Op::Store, None, None,
+        vec![Operand::IdRef(1), Operand::IdRef(2), Operand::MemoryAccess(spirv::MemoryAccess::ALIGNED | spirv::MemoryAccess::VOLATILE), Operand::LiteralBit32(16)]), &mut bad);
+    check("OpVariable", &dr::Instruction::new(spirv::Op::Variable, Some(3), Some(4), vec![Operand::StorageClass(spirv::StorageClass::Function), Operand::IdRef(9)]), &mut bad);
+    check("OpDecorate SpecId", &dr::Instruction::new(spirv::Op::Decorate, None, None, vec![Operand::IdRef(1), Operand::Decoration(spirv::Decoration::SpecId), Operand::LiteralBit32(0xffff_fffe)]), &mut bad);
+    check("OpCapability", &dr::Instruction::new(spirv::Op::Capability, None, None, vec![Operand::Capability(spirv::Capability::Shader)]), &mut bad);
+    check("OpFunction", &dr::Instruction::new(spirv::Op::Function, Some(1), Some(2), vec![Operand::FunctionControl(spirv::FunctionControl::INLINE | spirv::FunctionControl::PURE), Operand::IdRef(3)]), &mut bad);
+    check("OpNop", &dr::Instruction::new(spirv::Op::Nop, None, None, vec![]), &mut bad);
+    // 64-bit literals: low word first (checked at the word level only: parsing a context-dependent literal needs its type)
+    for v in [0u64, 1, 0xffff_ffff, 0x1_0000_0000, 0x8000_0000_0000_0001, u64::MAX] {
+        let i = dr::Instruction::new(spirv::Op::Constant, Some(1), Some(2), vec![Operand::LiteralBit64(v)]);
+        let w = i.assemble();
+        if w != vec![(5u32 << 16) | 43, 1, 2, v as u32, (v >> 32) as u32] { bad += 1; println!("MISMATCH OpConstant {:#x}: {:x?}", v, w); }
+    }
+    // blocks and functions with absent parts: assembly is the concatenation of what is present
+    let nop = dr::Instruction::new(spirv::Op::Nop, None, None, vec![]);
+    let ret = dr::Instruction::new(spirv::Op::Return, None, None, vec![]);
+    let lab = dr::Instruction::new(spirv::Op::Label, None, Some(5), vec![]);
+    let par = dr::Instruction::new(spirv::Op::FunctionParameter, Some(1), Some(6), vec![]);
+    let def = dr::Instruction::new(spirv::Op::Function, Some(1), Some(2), vec![Operand::FunctionControl(spirv::FunctionControl::NONE), Operand::IdRef(3)]);
+    let end = dr::Instruction::new(spirv::Op::FunctionEnd, None, None, vec![]);
+    for with_label in [false, true] { for n in 0..3usize {
+        let b = dr::Block { label: if with_label { Some(lab.clone()) } else { None }, instructions: (0..n).map(|k| if k % 2 == 0 { nop.clone() } else { ret.clone() }).collect() };
+        let mut want = vec![];
+        if with_label { want.extend(lab.assemble()); }
+        for i in &b.instructions { want.extend(i.assemble()); }
+        if b.assemble() != want { bad += 1; println!("MISMATCH Block label={} n={}: {:x?} vs {:x?}", with_label, n, b.assemble(), want); }
+        for with_def in [false, true] { for with_end in [false, true] { for np in 0..3usize {
+            let f = dr::Function { def: if with_def { Some(def.clone()) } else { None }, end: if with_end { Some(end.clone()) } else { None },
+                                   parameters: (0..np).map(|_| par.clone()).collect(), blocks: vec![b.clone(), b.clone()] };
+            let mut wf = vec![];
+            if with_def { wf.extend(def.assemble()); }
+            for p in &f.parameters { wf.extend(p.assemble()); }
+            wf.extend(want.clone()); wf.extend(want.clone());
+            if with_end { wf.extend(end.assemble()); }
+            if f.assemble() != wf { bad += 1; println!("MISMATCH Function def={} end={} params={} label={} n={}", with_def, with_end, np, with_label, n); }
+        } } }
+    } }
+    println!("checked, {} mismatches", bad);
+}
+"""
+
+
+def witness(failure, ctx):
+    p, err = ctx["vgen"]("asm_witness", WITNESS_PROG, [])
+    if p is None:
+        return {"found": False, "error": err}
+    lines = p.stdout.splitlines()
+    mm = [l for l in lines if l.startswith("MISMATCH")]
+    if p.returncode != 0 and not mm:
+        mm = ["the program panicked: " + p.stderr[-300:]]
+    return {"found": bool(mm), "exhaustive": False, "input": mm[:5], "observed": lines[-1:],
+            "how": "generated program: hand-built instructions / blocks / functions assembled by the real assembler, compared with the prescribed encoding and parsed back"}
